@@ -20,6 +20,12 @@ pub struct Decoder {
     last_max_update: usize,
     table: Table,
     buffer: BytesMut,
+    // The next call to `decode` continues a header block whose earlier
+    // fragment(s) were already fed to `decode`.
+    continues_block: bool,
+    // Whether a dynamic table size update is still allowed at this point of
+    // the current header block (RFC 7541, section 4.2: only at its start).
+    can_resize: bool,
 }
 
 /// Represents all errors that can be encountered while performing the decoding
@@ -159,7 +165,16 @@ impl Decoder {
             last_max_update: size,
             table: Table::new(size),
             buffer: BytesMut::with_capacity(4096),
+            continues_block: false,
+            can_resize: true,
         }
+    }
+
+    /// Tells the decoder that the next call to `decode` is fed the next
+    /// fragment (CONTINUATION) of the header block the previous call started,
+    /// rather than a new header block.
+    pub fn continue_block(&mut self) {
+        self.continues_block = true;
     }
 
     /// Queues a potential size update
@@ -184,7 +199,10 @@ impl Decoder {
     {
         use self::Representation::*;
 
-        let mut can_resize = true;
+        if !self.continues_block {
+            self.can_resize = true;
+        }
+        self.continues_block = false;
 
         if let Some(size) = self.max_size_update.take() {
             self.last_max_update = size;
@@ -202,7 +220,7 @@ impl Decoder {
             match Representation::load(ty)? {
                 Indexed => {
                     tracing::trace!(rem = src.remaining(), kind = %"Indexed");
-                    can_resize = false;
+                    self.can_resize = false;
                     let entry = self.decode_indexed(src)?;
                     consume(src);
                     if f(entry).is_break() {
@@ -211,7 +229,7 @@ impl Decoder {
                 }
                 LiteralWithIndexing => {
                     tracing::trace!(rem = src.remaining(), kind = %"LiteralWithIndexing");
-                    can_resize = false;
+                    self.can_resize = false;
                     let entry = self.decode_literal(src, true)?;
 
                     // Insert the header into the table
@@ -224,7 +242,7 @@ impl Decoder {
                 }
                 LiteralWithoutIndexing => {
                     tracing::trace!(rem = src.remaining(), kind = %"LiteralWithoutIndexing");
-                    can_resize = false;
+                    self.can_resize = false;
                     let entry = self.decode_literal(src, false)?;
                     consume(src);
                     if f(entry).is_break() {
@@ -233,7 +251,7 @@ impl Decoder {
                 }
                 LiteralNeverIndexed => {
                     tracing::trace!(rem = src.remaining(), kind = %"LiteralNeverIndexed");
-                    can_resize = false;
+                    self.can_resize = false;
                     let entry = self.decode_literal(src, false)?;
                     consume(src);
 
@@ -245,7 +263,7 @@ impl Decoder {
                 }
                 SizeUpdate => {
                     tracing::trace!(rem = src.remaining(), kind = %"SizeUpdate");
-                    if !can_resize {
+                    if !self.can_resize {
                         return Err(DecoderError::InvalidMaxDynamicSize);
                     }
 
